@@ -132,6 +132,27 @@ template <class A> static Verdict check_type(const std::string &text, const MUri
   return Verdict::pass();
 }
 
+// wchar_t only: each character of the accepted text in turn is lifted beyond 255 by a value that keeps its low byte. The
+// result contains a character no component may contain, so the grammar assigns it no components at all: a parse that
+// succeeds reports components that are not the RFC's (it classified a narrowed character).
+static Verdict lifted_variants(const std::string &text) {
+  if (text.empty() || text.size() > 64) return Verdict::pass();
+  static const wchar_t add[] = {0x100, 0x10000, 0x2100};
+  for (size_t i = 0; i < text.size(); i++) {
+    std::wstring w = widen<wchar_t>(text);
+    w[i] = (wchar_t)(w[i] + add[(i + text.size()) % 3]);
+    Parsed<Api<wchar_t>> p;
+    parse_via<Api<wchar_t>>(p, PE_SINGLE_EX, w);
+    stats().sub_evaluations++;
+    if (p.rc == 0) {
+      u32s t32; for (wchar_t c : w) t32 += (char32_t)c;
+      return Verdict::fail("W: '" + esc(t32) + "' (character " + std::to_string(i) + " of an accepted text lifted beyond 255) parses successfully: a character no component may contain was reported inside a component");
+    }
+  }
+  stats().hit("lifted_variants_checked");
+  return Verdict::pass();
+}
+
 static Verdict check_text(const std::string &text) {
   if (!uriref_matcher().matches(text)) return Verdict::discard();
   MUri m = m_split(text);
@@ -139,6 +160,7 @@ static Verdict check_text(const std::string &text) {
   if (v.kind != Verdict::PASS) return v;
   v = check_type<Api<wchar_t>>(text, m);
   if (v.kind != Verdict::PASS) return v;
+  if (fnv64(text) % 4 == 0) { v = lifted_variants(text); if (v.kind != Verdict::PASS) return v; }
   Stats &S = stats();
   static const char *hk[] = {"host=none", "host=regname", "host=ipv4", "host=ipv6", "host=ipvfuture"};
   S.hit(hk[m.hasAuth ? m.hostKind : 0]);
